@@ -36,28 +36,59 @@ def log(*a):
 _built = {}
 
 
+def harness_dir():
+    """The harness workspace to build.  Normally /verif/harness (path dependencies on /repo).  With
+    VERIF_REPO=/some/scratch/worktree (used only to try seeded mutations without touching /repo) a
+    private copy of the workspace is made under work/alt/ with the dependency paths rewritten."""
+    alt = os.environ.get("VERIF_REPO")
+    if not alt or os.path.realpath(alt) == "/repo":
+        return HARNESS
+    alt = os.path.realpath(alt)
+    d = os.path.join(WORK, "alt", hashlib.sha1(alt.encode()).hexdigest()[:10])
+    os.makedirs(d, exist_ok=True)
+    for root, dirs, files in os.walk(HARNESS):
+        dirs[:] = [x for x in dirs if x != "target"]
+        rel = os.path.relpath(root, HARNESS)
+        os.makedirs(os.path.join(d, rel), exist_ok=True)
+        for fn in files:
+            src = os.path.join(root, fn)
+            dst = os.path.join(d, rel, fn)
+            data = open(src, "rb").read()
+            if fn.endswith((".toml", ".rs")):
+                data = data.replace(b'"/repo/', b'"' + alt.encode() + b'/')
+            if not os.path.exists(dst) or open(dst, "rb").read() != data:
+                with open(dst, "wb") as f:
+                    f.write(data)
+    return d
+
+
 def build(pkg, features=(), bin_name=None):
     """cargo build the harness package against /repo's working tree; returns a private copy of the binary."""
     key = (pkg, tuple(sorted(features)), bin_name)
     if key in _built:
         return _built[key]
+    hd = harness_dir()
     cmd = ["cargo", "build", "--offline", "-q", "-p", pkg]
+    if bin_name:
+        cmd += ["--bin", bin_name]
     if features:
         cmd += ["--features", ",".join(features)]
     env = dict(os.environ, CARGO_NET_OFFLINE="true")
     t0 = time.time()
     # cargo takes a lock on the target dir, so concurrent checks serialize here
-    r = subprocess.run(cmd, cwd=HARNESS, env=env, capture_output=True, text=True)
+    r = subprocess.run(cmd, cwd=hd, env=env, capture_output=True, text=True)
     if r.returncode != 0:
         raise ToolError("cargo build failed for %s %s:\n%s" % (pkg, features, r.stderr[-4000:]))
     name = bin_name or pkg
-    src = os.path.join(HARNESS, "target", "debug", name)
+    src = os.path.join(hd, "target", "debug", name)
     tag = name + ("-" + "-".join(sorted(features)) if features else "")
     os.makedirs(os.path.join(WORK, "bin"), exist_ok=True)
     dst = os.path.join(WORK, "bin", "%s.%d" % (tag, os.getpid()))
     shutil.copy2(src, dst)
-    log("[build] %s %s in %.1fs" % (pkg, list(features), time.time() - t0))
+    log("[build] %s %s in %.1fs%s" % (pkg, list(features), time.time() - t0, "" if hd == HARNESS else " (alt repo %s)" % os.environ.get("VERIF_REPO")))
     _built[key] = dst
+    import atexit
+    atexit.register(lambda p=dst: os.path.exists(p) and os.unlink(p))
     return dst
 
 
